@@ -22,6 +22,20 @@ RULE = ("vec.* cases: (a) for every length 0..8 (rationals) one history containi
         "norm_inf of u, v, u+v, c*u; kind vec.cnormlaws) and one Rat case (dot and norm_1 of the same four vectors, exact; kind vec.n1laws), "
         "plus structured complex vectors (maximum modulus at the first / last / middle entry, ties of equal modulus, zero vectors, "
         "unimodular and zero scalars) and a mismatched-size case of each; "
+        "(f) special structure (package specB): SEARCH-ONLY histories (executor vs the plain list model, no model term) over extended executor ops -- "
+        "== and != against an equal copy / a proper prefix / a one-longer extension / a copy differing in the first or last entry / the empty vector / itself, "
+        "both operands the same object (v.dot(&v), &v + &v, &v - &v), the public field .vec read directly, sort_by with a descending and a "
+        "by-absolute-value comparator, Clone::clone_from into a longer / shorter / equal / empty target, and the element-type specific views "
+        "(f64: norm_1/2/p/inf, f64 * v; complex: conj/real/abs/norm_inf) of the CURRENT vector of a history: family edit-pairs-<elt> = for lengths "
+        "0,1,2,3,5 every editing operation class (28: push, push_front, insert at 0 / middle / end, pop, swap of the ends, resize shrink / grow / same / 0, "
+        "assign, clear, the three sorts, set first / last, the assignment operators, clone_from longer / shorter / same, clone) as FIRST and as SECOND "
+        "edit of a pair (one rotation of the 28 x 28 table per seed, all rotations and lengths 4, 8 in the thorough tier), the vector brought back to its "
+        "start alternately by clear + push (spare capacity) and clone_from, each pair followed by EVERY view (~45 operations, arguments 0 / 1 / -1 / 2 / 1/2, "
+        "complex +-i and 0.6+0.8i, ties); family history-x-<elt> = 60 random histories with the extended ops mixed in; and model-tied families "
+        "linspace-/powspace-structured (a = b, a > b, a = -b, an end at 0, n = 2, 3, ...; exponent 1, 2, 1/2, 3), norms-structured (zero, -0.0, constant, "
+        "constant negative, alternating +-c, one non-zero entry first / last, negative maximum first / last; lengths 1, 2, 3, 8), norm-laws-structured "
+        "(v = u, v = -u, v = 0; c = 0, 1, -1, 2, 1/2), complex-structured (entries on the axes, unit modulus, equal moduli), sort-ord-structured (sorted, "
+        "reversed, constant, two values; lengths 0, 1, 2), f64-times-vector-structured, constructors-structured; "
         "distinct = distinct executor line; non-trivial = non-empty vector or an operation that must panic")
 TRUSTED = ["Coq 8.16.1 kernel + vm_compute (primitive floats: bit-exact IEEE binary64)", "Flocq 4 (IEEE754.PrimFloat, BinarySingleNaN) and Coq's FloatAxioms for the two *_exact_float theorems", "Rust executor /verif/harness (kinds vec.*; Rat = i128 rationals)",
            "python driver: generators, plain-list reference model, mpmath norm reference, stream comparators",
@@ -60,7 +74,9 @@ MANIFEST = dict(
           "relative error gam 3 / gam (n+3) of the complex norms in the standard model with a rounded square root. Tie: the same definitions run by vm_compute "
           "against the implementation (Rat vs Qc exactly; f64/Complex bit-compared, libm-dependent norm_p/powspace by tolerance) "
           "on every length 0..64, every index range of the slice reductions for lengths <= 8 and random histories; a plain python "
-          "list model and mpmath norms search for failing inputs."),
+          "list model and mpmath norms search for failing inputs.  Search only (no model term): ==/!= on unequal vectors, same-object operands, "
+          "sort_by with non-ascending comparators, Clone::clone_from, the public field, and the f64 / complex views after every pair of editing "
+          "operation classes (families edit-pairs-*, history-x-*)."),
     note=("Norm laws are proved over R, not over f64 (rounding, overflow/underflow of the naive norm_2 are outside the theorems); "
           "norm_p/powspace go through libm and are tied by tolerance; Minkowski for general p is searched only. The search draws entries of "
           "magnitude 1e-3..1e3: for entries beyond ~1e154 (below ~1e-162) the unscaled norm_2/norm_p overflow (underflow) and the laws fail "
@@ -447,7 +463,7 @@ def structured_f64_cases(rng, tier):
         tie = [(-c if i % 2 else c) for i in range(n)]
         negmax_first = [-4.0 * abs(c)] + [abs(c)] * (n - 1); negmax_last = [abs(c)] * (n - 1) + [-4.0 * abs(c)]
         return [[0.0] * n, [-0.0] * n, [c] * n, [-abs(c)] * n, tie, e_first, e_last, negmax_first, negmax_last]
-    for n in pick([1, 2, 3, 8]):
+    for n in (1, 2, 3, 8):
         for c in pick([1.0, -1.0, 2.0, 0.5, 3.0]):
             for v in shapes(n, c):
                 for p in pick([1.0, 2.0, 3.0, 1.5]):
